@@ -293,4 +293,32 @@ theorem step_malformed (ep : Endpoint) (l : Line) (h : ∀ r, l ≠ .request r) 
   | notJson => exact ⟨rfl, rfl, rfl⟩
   | notRequest => exact ⟨rfl, rfl, rfl⟩
 
+/-! ## Reload (runtime restart) -/
+
+/-- Re-opening the store does not change what any credential maps to. -/
+theorem credentialRole_reload (ep : Endpoint) (auth : Option String) :
+    credentialRole ep.reload auth = credentialRole ep auth := by
+  cases htok : ep.authToken with
+  | some t =>
+    rw [credentialRole_token ep.reload t (by simpa [Endpoint.reload] using htok),
+      credentialRole_token ep t htok]
+    cases hp : ep.pairing <;> cases auth <;> simp [Endpoint.reload, Pairing.reload, hp]
+  | none =>
+    rw [credentialRole_open ep.reload (by simpa [Endpoint.reload] using htok),
+      credentialRole_open ep htok]
+    cases hp : ep.pairing <;> cases auth <;> simp [Endpoint.reload, Pairing.reload, hp]
+
+theorem reload_pruned (ep : Endpoint) : ep.reload.pruned = ep.pruned.reload := by
+  cases ep with
+  | mk tokn ra de dm p n => cases p <;> simp [Endpoint.reload, Endpoint.pruned, Pairing.reload]
+
+theorem reload_pruned_congr {a b : Endpoint} (h : a.pruned = b.pruned) :
+    a.reload.pruned = b.reload.pruned := by
+  rw [reload_pruned, reload_pruned, h]
+
+/-- The pairing list (`PairingStore::list`) is the same before and after a reload. -/
+theorem pairingView_reload (ep : Endpoint) : ep.reload.pairingView = ep.pairingView := by
+  cases ep with
+  | mk tokn ra de dm p n => cases p <;> simp [Endpoint.reload, Endpoint.pairingView, Pairing.reload]
+
 end TrustVerif.C18
